@@ -175,7 +175,7 @@ def imports_layout(pe64, delayed, ndesc, nthunk, term_desc, term_thunk, term_str
         L.add("ilt%d" % d, tw * (nthunk + (1 if term_thunk else 0)), thunks)
         L.add("iat%d" % d, tw * (nthunk + (1 if term_thunk else 0)), thunks)
         for k in range(nthunk):
-            L.add("hn%d_%d" % (d, k), 2 + 6 + (1 if term_str else 0), (lambda kk: lambda r, o: w16(kk) + cstr(b"Func%02d" % kk, term_str))(k))
+            L.add("hn%d_%d" % (d, k), 2 + 6 + (1 if term_str else 0), (lambda kk: lambda r, o: w16(kk) + cstr(b"F%05d" % kk, term_str))(k))
     L.dirs[13 if delayed else 1] = ("descs", declared_size if declared_size is not None else dsz * (ndesc + 1), False)
     return L
 
@@ -388,6 +388,112 @@ def pe_header_cases():
             g = bytearray(f)
             g[0x3c:0x40] = w32(v)
             out.append(("pe-headers", "synthetic %s: e_lfanew = %s" % ("PE32+" if pe64 else "PE32", vn), bytes(g)))
+    return out
+
+
+# ------------------------------------------------------------------ count-from-file containers driven past their growth steps
+def _vs_string(key, value):
+    k = key.encode("utf-16le") + b"\0\0"
+    v = value.encode("utf-16le") + b"\0\0"
+    body = k
+    body += b"\0" * ((-(6 + len(body))) % 4)
+    ln = 6 + len(body) + len(v)
+    return w16(ln) + w16(len(value) + 1) + w16(1) + body + v + b"\0" * ((-ln) % 4)
+
+
+def version_info_blob(n):
+    strings = b"".join(_vs_string("k%d" % i, "v%d" % i) for i in range(n))
+    tkey = "040904b0".encode("utf-16le") + b"\0\0"
+    table = w16(6 + len(tkey) + len(strings)) + w16(0) + w16(1) + tkey + strings      # 24-byte header, strings follow aligned
+    skey = "StringFileInfo".encode("utf-16le") + b"\0\0"
+    sfi = w16(6 + len(skey) + len(table)) + w16(0) + w16(1) + skey + table            # 36-byte header
+    rkey = "VS_VERSION_INFO".encode("utf-16le") + b"\0\0"
+    fixed = w32(0xfeef04bd) + w32(0x10000) + b"\0" * 44
+    root_hdr = w16(0) + w16(52) + w16(0) + rkey + b"\0\0" + fixed                     # 6 + 32 + 2 pad + 52 = 92
+    total = len(root_hdr) + len(sfi)
+    return w16(min(total, 0xffff)) + root_hdr[2:] + sfi
+
+
+def _rdir(named, ids, entries):
+    return w32(0) + w32(0) + w16(0) + w16(0) + w16(named) + w16(ids) + b"".join(entries)
+
+
+def growth_cases():
+    """[(family, description, file, rule source)]: well-formed files whose counts drive every dictionary / array the modules fill from the
+    scanned bytes past its growth steps (64, 128, 256, ...); the rules read the entries around the steps and the last one back"""
+    out = []
+    steps = (1, 63, 64, 65, 127, 128, 129, 193, 194, 300, 1000)
+
+    def around(n):
+        return sorted({i for i in (0, 62, 63, 64, 65, 126, 127, 128, 129, 191, 192, 193, 194, 255, 256, 257, 511, 512, n - 2, n - 1) if 0 <= i < n})
+    for n in steps:
+        # pe.version_info (dictionary) and pe.version_info_list (array)
+        data = version_info_blob(n)
+        L = Layout()
+        base = lambda r: r["root"]
+        L.add("root", 24, lambda r, o: _rdir(0, 1, [w32(16) + w32(0x80000000 | (r["typedir"] - base(r)))]))
+        L.add("typedir", 24, lambda r, o: _rdir(0, 1, [w32(1) + w32(0x80000000 | (r["namedir"] - base(r)))]))
+        L.add("namedir", 24, lambda r, o: _rdir(0, 1, [w32(0x409) + w32(r["dentry"] - base(r))]))
+        L.add("dentry", 16, lambda r, o, d=data: w32(r["data"]) + w32(len(d)) + w32(0) + w32(0))
+        L.add("data", len(data), lambda r, o, d=data: d)
+        L.dirs[2] = ("root", 0x1000, False)
+        f, _, _ = L.build("data", 16)
+        conds = ["pe.number_of_version_infos == %d" % n] + \
+                ['pe.version_info["k%d"] == "v%d" and pe.version_info_list[%d].key == "k%d" and pe.version_info_list[%d].value == "v%d"' % (i, i, i, i, i, i)
+                 for i in around(n)]
+        out.append(("growth", "PE32 with a version resource of %d strings k<i>=v<i> (pe.version_info dictionary, pe.version_info_list array)" % n, f,
+                    'import "pe"\n' + "\n".join("rule g%d { condition: %s }" % (j, c) for j, c in enumerate(conds))))
+        # pe.export_details
+        L = exports_layout(n, n, n, n, n)
+        f, _, _ = L.build("namestrs", 16)
+        nstr = max(min(n, 8), 1)
+        conds = ["pe.number_of_exports == %d" % n] + ['pe.export_details[%d].ordinal == %d and pe.export_details[%d].name == "fn%05d"' % (i, i + 1, i, i % nstr)
+                                                       for i in around(n) if i != 1]
+        out.append(("growth", "PE32 with %d named exports (pe.export_details array)" % n, f,
+                    'import "pe"\n' + "\n".join("rule g%d { condition: %s }" % (j, c) for j, c in enumerate(conds))))
+        # pe.import_details[0].functions
+        L = imports_layout(False, False, 1, n, True, True, True)
+        f, _, _ = L.build("descs", 16)
+        conds = ["pe.number_of_imports == 1 and pe.import_details[0].number_of_functions == %d" % n] + \
+                [('pe.import_details[0].functions[%d].ordinal == %d' % (i, i + 1)) if i % 3 == 1 else ('pe.import_details[0].functions[%d].name == "F%05d"' % (i, i))
+                 for i in around(n)]
+        out.append(("growth", "PE32 importing %d functions from one library (import_details[0].functions array)" % n, f,
+                    'import "pe"\n' + "\n".join("rule g%d { condition: %s }" % (j, c) for j, c in enumerate(conds))))
+        # pe.resources
+        L = Layout()
+        L.add("root", 24, lambda r, o: _rdir(0, 1, [w32(10) + w32(0x80000000 | (r["typedir"] - r["root"]))]))
+        L.add("typedir", 16 + 8 * n, lambda r, o, n=n: _rdir(0, n, [w32(i + 1) + w32(0x80000000 | (r["langs"] + 24 * i - r["root"])) for i in range(n)]))
+        L.add("langs", 24 * n, lambda r, o, n=n: b"".join(_rdir(0, 1, [w32(0x409) + w32(r["dentries"] + 16 * i - r["root"])]) for i in range(n)))
+        L.add("dentries", 16 * n, lambda r, o, n=n: b"".join(w32(r["payload"]) + w32(4 + i % 5) + w32(0) + w32(0) for i in range(n)))
+        L.add("payload", 16, lambda r, o: b"PAYLOADPAYLOAD\0\0")
+        L.dirs[2] = ("root", 0x100000, False)
+        f, _, _ = L.build("payload", 16)
+        conds = ["pe.number_of_resources == %d" % n] + ["pe.resources[%d].id == %d and pe.resources[%d].length == %d and pe.resources[%d].type == 10" % (i, i + 1, i, 4 + i % 5, i)
+                                                        for i in around(n)]
+        out.append(("growth", "PE32 with %d resources of one type (pe.resources array)" % n, f,
+                    'import "pe"\n' + "\n".join("rule g%d { condition: %s }" % (j, c) for j, c in enumerate(conds))))
+    # ELF64 little-endian with n sections and n symbols
+    for n in (65, 129, 300, 1000):
+        names = b"\0.shstrtab\0.symtab\0.strtab\0sec\0"
+        symnames = b"\0" + b"".join(b"s%05d\0" % i for i in range(n))
+        ehs, shs = 64, 64
+        shoff = ehs
+        strtab_off = shoff + shs * n
+        symtab_off = strtab_off + len(names)
+        symstr_off = symtab_off + 24 * n
+        hdr = b"\x7fELF" + bytes([2, 1, 1, 0]) + bytes(8) + struct.pack("<HHIQQQIHHHHHH", 2, 62, 1, 0x400000, 0, shoff, 0, ehs, 56, 0, shs, n, 1)
+
+        def sh(name, ty, off, size, link=0, entsize=0):
+            return struct.pack("<IIQQQQIIQQ", name, ty, 0, 0x400000 + off, off, size, link, 0, 1, entsize)
+        shdrs = sh(0, 0, 0, 0) + sh(1, 3, strtab_off, len(names)) + sh(11, 2, symtab_off, 24 * n, 3, 24) + sh(19, 3, symstr_off, len(symnames))
+        shdrs += b"".join(sh(27, 1, ehs, 4 + i) for i in range(4, n))
+        syms = b"".join(struct.pack("<IBBHQQ", 1 + 7 * i, 0x12, 0, 1, 0x400000 + i, 8) for i in range(n))
+        f = hdr + shdrs + names + syms + symnames
+        conds = ["elf.number_of_sections == %d and elf.symtab_entries == %d" % (n, n)] + \
+                ['elf.symtab[%d].name == "s%05d" and elf.symtab[%d].value == %d' % (i, i, i, 0x400000 + i) for i in around(n)] + \
+                ['elf.sections[%d].size == %d' % (i, 4 + i) for i in around(n) if i >= 4]
+        out.append(("growth", "ELF64 with %d sections and %d symbols (elf.sections, elf.symtab arrays)" % (n, n), f,
+                    'import "elf"\n' + "\n".join("rule g%d { condition: %s }" % (j, c) for j, c in enumerate(conds))))
     return out
 
 
